@@ -36,7 +36,8 @@ AS = [
     "documented containment direction: doc/command-line.md 'C(A, B) = B.contained_by(A)' (the option bullet `C(i, j) = size(i intersection j) / size(i)` "
     "in the same file says the opposite; the prose paragraph and the code agree)",
 ]
-RULE = ("lists of 1..25 compatible scaled signatures (flat / abundance / mixed, equal or mixed scaled with downsample requested, empty, identical and "
+RULE = ("(every matrix object handed out in a case is kept UNCOPIED by the adapter and re-read after every later pool-based call and at the end: `recheck`, "
+        "oracle C16:earlier-result-changed; compare_parallel returns an np.memmap on a scratch file of np_utils.to_memmap) lists of 1..25 compatible scaled signatures (flat / abundance / mixed, equal or mixed scaled with downsample requested, empty, identical and "
         "disjoint sketches, ksize 3..51); 2-5 measures per case out of similarity (ignore_abundance 0/1), jaccard ANI, containment (+ANI), "
         "max containment (+ANI), avg containment (+ANI); every builder that exists for the measure: compare_serial, compare_parallel with "
         "n_jobs from {2,3,5,8,16}, compare_all_pairs with n_jobs None / 1 / k, compare_serial_containment / _max_containment / _avg_containment; "
